@@ -148,7 +148,15 @@ Section Enc.
 
   Definition eread := eread_gen eload.
 
+  (* Seek::seek, SeekFrom::Start arm.  First the D20 guard (encrypt.rs:493): a position whose tag-aware counterpart
+     `no_tag_position_to_tag_position(pos)` would not fit a u64 is refused with InvalidInput BEFORE anything is
+     touched (the inner layer keeps its position).  `u64::MAX / CHUNK_TAG_SIZE - 1` is a compile-time constant of
+     the source (CHUNK_TAG_SIZE <= u64::MAX there, so the subtraction cannot underflow). *)
+  Definition U64MAX : N := 2 ^ 64 - 1.
+  Definition start_in_range (pos : N) : bool := negb (U64MAX / CTS - 1 <? pos / CHUNK).
+
   Definition eseek_start (s : estate) (pos : N) : estate * res N :=
+    if U64MAX / CTS - 1 <? pos / CHUNK then (s, Err EInval) else
     let tp := notag2tag pos in
     let cn := tp / CTS in
     let pic := tp mod CTS in
@@ -164,6 +172,16 @@ Section Enc.
     | (i', Crash c) => (mkE i' (e_cache s) (e_cpos s) (e_chunk s), Crash c)
     end.
 
+  (* i64 arithmetic of the Current / End arms.  Convention (the one of Stream.seek_target, kept): a whence offset
+     d : Z is the mathematical value of the i64 argument and sums are mathematical; `u64::try_from(sum)` is
+     seek_target's "negative -> InvalidInput".  What the source CHECKS is modelled as an explicit test:
+       Current: i64::try_from(current).unwrap()            -> Crash 524 when current >= 2^63
+       End:     i64::try_from(end_pos).map_err(..)?        -> InvalidInput when end_pos >= 2^63
+                .checked_add(pos).ok_or_else(..)?          -> InvalidInput when the sum leaves the i64 range
+     The plain `+` of the Current arm is NOT checked by the source (debug build: overflow panic, release build: wrap
+     to a negative value -> InvalidInput); it stays the mathematical sum here, as in gen/Src3e.v. *)
+  Definition i64_fits (z : Z) : bool := ((- 2 ^ 63 <=? z) && (z <? 2 ^ 63))%Z.
+
   Definition eseek (s : estate) (w : whence) : estate * res N :=
     match w with
     | FromStart pos => eseek_start s pos
@@ -171,6 +189,7 @@ Section Enc.
       (* after the D10 repair: the position is chunk number and cache position *)
       let cur := e_chunk s * CHUNK + e_cpos s in
       if (d =? 0)%Z then (s, Ok cur) else
+      if 2 ^ 63 <=? cur then (s, Crash 524) else
       match seek_target cur d with
       | Ok q => eseek_start s q
       | Err e => (s, Err e) | Crash c => (s, Crash c)
@@ -182,6 +201,8 @@ Section Enc.
         let s1 := mkE i' (e_cache s) (e_cpos s) (e_chunk s) in
         match end_pos_of_inner end_inner with
         | Ok end_pos =>
+          if 2 ^ 63 <=? end_pos then (s1, Err EInval) else
+          if negb (i64_fits (Z.of_N end_pos + d)) then (s1, Err EInval) else
           match seek_target end_pos d with
           | Ok q => eseek_start s1 q
           | Err e => (s1, Err e) | Crash c => (s1, Crash c)
